@@ -19,7 +19,7 @@ static int c05_main(int argc,char **argv){
   while((line=readline_(stdin))){
     int n=split(line,tok,16);
     if(n==0){ free(line); continue; }
-    if(!strcmp(tok[0],"case")){ printf("== case %s\n",n>1?tok[1]:"?"); fflush(stdout); }
+    if(!strcmp(tok[0],"case")){ printf("== case %s\n",n>1?tok[1]:"?"); fflush(stdout); case_watchdog(); }
     else if(!strcmp(tok[0],"enc")&&n>=7){
       vorbis_info vi,dvi; vorbis_comment vc,dvc; vorbis_dsp_state vd,dvd; vorbis_block vb,dvb; ogg_packet op,h[3];
       mk_params P; int rc,k,eos=0,managed=0,hardmax=0; long total=atol(tok[6]),done=0,npk=0,samples=0; int ch=atoi(tok[1]); long rate=atol(tok[2]);
